@@ -793,6 +793,8 @@ func c14Gen(g *Gen) {
 			one("dense-binary", string(b))
 		}
 	}
+	// length classes of every variable-length part of an address (c14_long.go)
+	c14GenLong(g)
 }
 
 func init() { register(&Prop{ID: "C14", Gen: c14Gen, Run: c14Run}) }
